@@ -92,6 +92,10 @@ func (t *mtype) goType() reflect.Type {
 		default:
 			rt = reflect.TypeOf(uint64(0))
 		}
+	case "bytes":
+		rt = reflect.TypeOf([]byte(nil))
+	case "barr":
+		rt = reflect.ArrayOf(t.N, reflect.TypeOf(byte(0)))
 	case "slice":
 		rt = reflect.SliceOf(t.E.goType())
 	case "array":
@@ -191,6 +195,16 @@ func (t *mtype) set(v reflect.Value, g any) {
 			}
 			v.SetUint(n)
 		}
+	case "bytes":
+		if m["nil"].(bool) {
+			v.SetZero()
+			return
+		}
+		v.SetBytes(bytesOf(toInts(m["b"])))
+	case "barr":
+		for i, b := range toInts(m["b"]) {
+			v.Index(i).SetUint(uint64(b))
+		}
 	case "slice":
 		if m["nil"].(bool) {
 			v.SetZero()
@@ -276,8 +290,14 @@ func modelOfType(rt reflect.Type) map[string]any {
 	case reflect.Uint8, reflect.Uint16, reflect.Uint32, reflect.Uint64:
 		return map[string]any{"k": "int", "bits": float64(rt.Bits()), "signed": false}
 	case reflect.Slice:
+		if rt.Elem().Kind() == reflect.Uint8 {
+			return map[string]any{"k": "bytes"}
+		}
 		return map[string]any{"k": "slice", "e": modelOfType(rt.Elem())}
 	case reflect.Array:
+		if rt.Elem().Kind() == reflect.Uint8 {
+			return map[string]any{"k": "barr", "n": float64(rt.Len())}
+		}
 		return map[string]any{"k": "array", "n": float64(rt.Len()), "e": modelOfType(rt.Elem())}
 	case reflect.Pointer:
 		return map[string]any{"k": "ptr", "e": modelOfType(rt.Elem())}
@@ -321,6 +341,15 @@ func (t *mtype) render(v reflect.Value) any {
 			return map[string]any{"neg": n < 0, "mag": digitsOf(strings.TrimPrefix(s, "-"))}
 		}
 		return map[string]any{"neg": false, "mag": digitsOf(strconv.FormatUint(v.Uint(), 10))}
+	case "bytes", "barr":
+		bs := []any{}
+		for i := 0; i < v.Len(); i++ {
+			bs = append(bs, float64(v.Index(i).Uint()))
+		}
+		if t.K == "barr" {
+			return map[string]any{"b": bs}
+		}
+		return map[string]any{"nil": v.IsNil(), "b": bs}
 	case "slice":
 		es := []any{}
 		for i := 0; i < v.Len(); i++ {
@@ -555,9 +584,17 @@ func modelOfDesc(t *tdesc) *mtype {
 		return intT(64, false)
 	case "any":
 		return &mtype{K: "any"}
+	case "bytes":
+		return &mtype{K: "bytes"}
 	case "slice", "array", "ptr":
+		if t.K == "slice" && t.Elem.K == "uint8" { // []byte and [N]byte are binary data, not lists
+			return &mtype{K: "bytes"}
+		}
+		if t.K == "array" && t.Elem.K == "uint8" {
+			return &mtype{K: "barr", N: t.N}
+		}
 		e := modelOfDesc(t.Elem)
-		if e == nil || (t.K != "ptr" && t.Elem.K == "uint8") { // []byte and [N]byte are binary data, not lists
+		if e == nil {
 			return nil
 		}
 		return &mtype{K: t.K, E: e, N: t.N}
@@ -613,6 +650,8 @@ func (t *mtype) data() map[string]any {
 		return map[string]any{"k": "int", "bits": t.Bits, "signed": t.Signed}
 	case "slice", "ptr":
 		return map[string]any{"k": t.K, "e": t.E.data()}
+	case "barr":
+		return map[string]any{"k": "barr", "n": t.N}
 	case "array":
 		return map[string]any{"k": "array", "n": t.N, "e": t.E.data()}
 	case "map":
